@@ -108,12 +108,10 @@ def index_params(tfs, tier, rng):
             stride_m = max(1, n // 150)
             emit_target = 250
         else:
-            if s >= 900:
+            if s >= 300:
                 full = allzy
-            elif s >= 300:      # one seeded year per zone
-                full = [[z + 1, rng.choice(YEARS)] for z in range(nz)]
-            elif s >= 60:       # one seeded year for the UTC zone and for one seeded zone with daylight saving
-                full = [[1, rng.choice(YEARS)], [rng.choice([2, 4]), rng.choice(YEARS)]]
+            elif s >= 60:       # one seeded year for the UTC zone and for each zone with daylight saving
+                full = [[1, rng.choice(YEARS)], [2, rng.choice(YEARS)], [4, rng.choice(YEARS)]]
             else:
                 full = []
             hw = 7200 if s >= 10 else 1800
@@ -275,7 +273,7 @@ def run_c30(res, tier, rng, binary, zones, tfs, known):
 def mults_for(tier, rng):
     if tier == "quick":
         return sorted({1, rng.choice([2, 3, 4, 5, 6, 7, 10, 12, 15, 24, 30, 45, 60, 90, 120, 1440])})
-    return sorted(set(range(1, 8)) | {10, 12, 15, 24, 30, 45, 60, 90, 120, 1440})
+    return sorted(set(range(1, 13)) | {15, 20, 24, 30, 45, 60, 90, 120, 1440})
 
 
 def window_input(inp, tier, rng):
@@ -285,7 +283,7 @@ def window_input(inp, tier, rng):
     inp["wdists"] = [0, 1, 3600, 86400, 90000] if quick else [0, 1, 59, 60, 1800, 3599, 3600, 7200, 32400, 86399, 86400, 90000]
     lo, hi = 365 * DAY - 14 * DAY, (365 * 3 + 366) * DAY + 14 * DAY      # 2018-12-18 .. 2022-01-15 relative to BASE
     inp["wlo"], inp["whi"] = lo, hi
-    n = 80 if quick else 400
+    n = 80 if quick else 500
     inp["wstride_n"] = n
     inp["wstride_step"] = (hi - lo) // n - rng.randrange(1, 5000)
     inp["wstride_s0"] = lo + rng.randrange(1, 86400)
